@@ -1,6 +1,6 @@
 """C10 -- UDF bridge fidelity for an independent ECMA-167 reader.  DESIGN.md section 8.10."""
 from harness import common, nsoracles, sysimg, syslevel, sysprops
-from harness.props import udfleaf
+from harness.props import udfleaf, vdleaf
 
 MODULE = 'C10'
 RECIPES = ['udf_fid_cross', 'udf_fid_exact', 'udf_symlinks', 'udf_fid_churn']
@@ -10,6 +10,7 @@ def oracle(b, report):
     nsoracles.oracle_c10(b, report)
     fid_oracle(b, report)
     udfleaf.collect_from_image(b)
+    vdleaf.collect(b)
 
 
 def leaf_gen(ctx):
@@ -118,6 +119,8 @@ def run(ctx):
                             build_kwargs={'reopen_points': rp})
     flush_fid_cases(ctx)
     udfleaf.flush_image_descs(ctx)
+    vdleaf.flush_vds(ctx)
+    vdleaf.VD.clear()
     ctx.cov['rule'] = ('UDF-bridge images of random histories (directories past one identifier sector, cross-namespace links, removals, '
                        'Latin-1 and UCS-2 names, symlinks with non-Latin-1 components, zero-length files) plus recipes (identifier area '
                        'filled exactly to a sector boundary with entries after it), fresh and reopened-then-edited; an independent '
